@@ -390,6 +390,13 @@ func main() {
 				} else {
 					k := ci*7 + pi*3 + int(role) + int(c.Seed)
 					cells = append(cells, cell{role, cause, phase, []int{0, 1, 10}[k%3], []string{"message-boundary", "mid-field", "inside-checksum"}[(k/3)%3], []int{0, 7, 23}[(k/9)%3]})
+					if cause == "unroutable-inbound-frame" {
+						// which goroutine notices the end of the handler loop first is a matter of scheduling: several
+						// buffer sizes and offsets per cell
+						for extra := 1; extra <= 5; extra++ {
+							cells = append(cells, cell{role, cause, phase, []int{0, 1, 10}[(k+extra)%3], "message-boundary", []int{0, 1, 7, 8, 23, 24}[extra]})
+						}
+					}
 				}
 			}
 		}
